@@ -64,6 +64,7 @@ mutual
         | .specialColon => afterSimple ctx { s with status := 0 } .continue_
         | .regularTrue => afterSimple ctx { s with status := 0 } .continue_
         | .notFound => afterSimple ctx { s with status := 127 } .continue_
+        | .status n => afterSimple ctx { s with status := n } .continue_
         | .function body =>
           let (s1, r) := specCmd fuel ctx s body
           match r with
